@@ -83,6 +83,22 @@ def check_valid(case, ctx):
             st_, back = call(Prv.from_wif, b58.encode_check(want_payload))
             if st_ == "exc" or bytes(back.k) != k32:
                 raise Violation("C09/valid/from_wif-roundtrip", "from_wif(reference WIF %s) -> %r" % (flav, back))
+    # after the valid key has been built: other encodings of the same integer, and the negated point
+    for name, enc in (("00||k (33 bytes)", b"\x00" + k32), ("8 zero bytes || k", b"\x00" * 8 + k32),
+                      ("k without leading zeros", k32.lstrip(b"\x00") if k32[0] == 0 else k32[:-1])):
+        if len(enc) == 32:
+            continue
+        for site, f in (("PrivateKey(bytes)", lambda enc=enc: Prv(enc)), ("parse", lambda enc=enc: Prv.parse(enc))):
+            st_, v = call(f)
+            if st_ == "ok":
+                raise Violation("C09/reject/wrong-length-after-valid-key", "%s accepted %s (%d bytes) after the valid key "
+                                "for the same integer had been constructed" % (site, name, len(enc)))
+    npt = secp.mul_g(N - k)
+    for enc, want in ((secp.ser_c(npt), secp.ser_c(npt)), (sec_c, sec_c), (secp.ser_u(npt), secp.ser_c(npt))):
+        st_, q = call(Pub.parse, enc)
+        if st_ == "exc" or q.sec() != want:
+            raise Violation("C09/valid/sec-parse-negated-point", "PublicKey.parse(%s) after parsing the key with the same x "
+                            "gave %r, expected %s" % (enc.hex(), q if st_ == "exc" else q.sec().hex(), want.hex()))
     if case.get("default_wif", True):
         expect_eq("C09/valid/wif-default", "wif() default flavour", b58.decode_check(pk.wif()), b"\x80" + k32 + b"\x01")
     # node views
